@@ -78,6 +78,7 @@ inductive Outcome where
   | resp (tag : Nat)   -- (response, nil)
   | noResp             -- ErrNoResponse
   | ctxErr             -- ctx.Err()
+  | writeErr           -- "error writing packet to connection" (WriteTo failed, client not closed)
   deriving DecidableEq, Repr, Inhabited
 
 /-- State of a call that is parked in the `select` of try `k`. -/
@@ -286,6 +287,15 @@ def groups (evs : List Event) : List (Int × Bool × Group) := groupsAux 0 0 evs
 def runCall (T n : Int) (evs : List Event) (H : Int) : List Result :=
   let sts := (groups evs).foldl (fun sts (g : Int × Bool × Group) => stepGroup n g.1 g.2.1 g.2.2 sts) [begin T n]
   dedup (sts.map (finish n H))
+
+/-- Write fault: the `k`-th `WriteTo` of the call (0-based) fails while the
+client is open. `send` unregisters (`cancel()`) and returns the write error,
+`retryFn` aborts on any error other than its own deadline error, so the call
+returns at the instant of that write, `T·(2^k − 1)`, having completed `k`
+transmissions. The run up to that instant is the fault-free one: a result in
+which the `k`-th transmission takes place is cut there, any other is kept. -/
+def applyWriteFault (T : Int) (k : Nat) (r : Result) : Result :=
+  if k < r.txs.length then ⟨r.txs.take k, some (T * (2 ^ k - 1), .writeErr)⟩ else r
 
 /-- Instant at which `Close` is called (it returns at the same instant). -/
 def closeTime (evs : List Event) : Option Int :=
